@@ -156,7 +156,7 @@ def tlc_validate(ctx, module, records, env_extra, workers=None, timeout=None):
         for r in records:
             f.write(json.dumps(r) + "\n")
     env = {"VERIF_TRACE": tr, "VERIF_LO": 1, "VERIF_HI": len(records), "VERIF_SEED": ctx.seed,
-           "VERIF_PROP": ctx.prop, "VERIF_HTCAP": 6 if ctx.quick() else 8, "VERIF_CLCAP": 10 if ctx.quick() else 12,
+           "VERIF_PROP": ctx.prop, "VERIF_HTCAP": 6 if ctx.quick() else 7, "VERIF_CLCAP": 10 if ctx.quick() else 11,
            "VERIF_FULLHT": "0" if ctx.quick() else "1"}
     env.update(env_extra or {})
     vals, _ = run_tlc(ctx, module, module + ".cfg", env, workers=workers or min(NCPU, 12), timeout=timeout or (3000 if ctx.quick() else 12000))
@@ -204,7 +204,7 @@ def add_params(ctx, rec, idx, fields, nvars=1, size=10, budget=None):
     dom = (whi - wlo + 1) + 2 + 2 + 2
     cost = (dom ** nvars) * size
     if budget is None:
-        budget = 60000 if ctx.quick() else 1500000
+        budget = 60000 if ctx.quick() else 400000
     if cost > budget:
         return "expensive"
     rec["pp"] = {"wlo": wlo, "whi": whi, "lo": lo, "hi": hi, "minsyms": 1, "nbs": 1, "ext": ext}
